@@ -14,7 +14,8 @@ LEVEL = "exploration"
 BUDGET = {"quick": 2400, "thorough": 40000}
 RULE = (
     "case = generated scenario with each of the four lifecycle commands set or unset (all 16 combinations), HPC or "
-    "local mode, x schedule x optional resubmit-jobs after completion; hook commands are recorded at the subprocess "
+    "local mode, x schedule x optional lost batch (completion with missing jobs) x optional resubmit-jobs after "
+    "completion; hook commands are recorded at the subprocess "
     "boundary with host, environment and position in the history; oracle: setup exactly once, on the submitting "
     "host, before the first sbatch/launch, with JADE_RUNTIME_OUTPUT, and not again on resubmission; teardown exactly "
     "once per completion, after results.json was written and before is_complete becomes true, whatever the exit "
@@ -34,6 +35,9 @@ def strategy(tier):
         "scn": base,
         "schedule": gen.schedules(),
         "resubmit": st.sampled_from([False, False, True]),
+        # a lost batch (sbatch failing for its whole retry series): the submission then completes with missing jobs --
+        # still a completion, so the teardown command must run
+        "lose": st.one_of(st.none(), st.none(), st.none(), st.integers(0, 3)),
     })
 
 
@@ -41,7 +45,8 @@ def run_case(case):
     scn = case["scn"]
     hooks = scn["hooks"]
     local = scn["mode"] == "local"
-    with H.Sim(scn, schedule=case["schedule"], snapshots=True) as sim:
+    faults = [] if case.get("lose") is None or local else [{"kind": "sbatch_fail_series", "nth": case["lose"]}]
+    with H.Sim(scn, schedule=case["schedule"], snapshots=True, faults=faults) as sim:
         w = sim.w
         at_hook = {}
 
@@ -62,6 +67,10 @@ def run_case(case):
         if local:
             res["classes"].append("local_mode")
         epochs = 1
+        lost = any(r["k"] == "sbatch_fail" for r in w.log)
+        if lost:
+            res["classes"].append("completed_with_missing_jobs")
+        w.faults[:] = []
         if outcome == "complete" and case["resubmit"] and not local:
             w.note("user", cmd="resubmit")
             sim.user_cmd(["resubmit-jobs", sim.out, "--successful"], name="resubmit")
